@@ -345,6 +345,26 @@ def deferred_chown_stream(tag):
                        "was made changes, its namesake under the new working directory does not")
 
 
+# ---- C10 / C20: links made behind the crate's back, with target texts the crate would not write itself ----------------------------------------------
+def rawlink_stream(tag):
+    texts = ["notes.txt~", "a~b", "$UNSET_VAR_X/y", "~", "plain", "../d/plain", "dir", "nowhere", "x/~/y", "${"]
+    pre = [op("mkdir_p", "/d/dir"), op("write_all", "/d/plain", b"p"), op("write_all", "/d/notes.txt~", b"n")]
+    hs = []
+    for t in texts:
+        hs.append(_line("s", pre + ["rawlink:%s:%s" % (hx("/d/l"), hx(t)), op("is_symlink", "/d/l"), "macro:is_symlink:%s" % hx("/d/l"), "macro:no_symlink:%s" % hx("/d/l"),
+                                    op("is_file", "/d/l"), op("is_dir", "/d/l"), op("remove", "/d/l"), op("is_symlink", "/d/l")]))
+
+    def law(line, out):
+        r = _res(out)
+        if r[3] != "ok":
+            return True
+        # a link is a link whatever its target text says; the checking macros follow; link exclusion; remove takes the link away
+        return r[4] == "b1" and r[5] == "pass" and r[6].startswith("panic:assert_vfs_no_symlink!") and r[7] == "b0" and r[8] == "b0" and r[9] == "ok" and r[10] == "b0"
+    return Stream(tag + "-raw-links-stdfs", "pycheck", hs, impl_env=c_wrap.sandbox_env(tag), pycheck=law, exhaustive=True, nontrivial=lambda l, o: True,
+                  rule="links created directly on the real filesystem with target texts the crate would not write ('~' inside a name, an unset variable, '${'): is_symlink, the "
+                       "is_symlink / no_symlink macros, link exclusion and remove on Stdfs")
+
+
 def _extend(mod, pid, extra, note):
     P = dict(mod.PROPS[pid])
     base = P["streams"]
@@ -357,7 +377,7 @@ def _extend(mod, pid, extra, note):
 _extend(c_path, "C05", lambda tier, rng, ctx: [spelling_stream("c05"), cwd_gone_stream("c05g")], "Stdfs side: the spelling stream runs every method on both backends; the theorems are about the Memfs mirror")
 _extend(c_mem, "C09", lambda tier, rng, ctx: [copy_link_stream("c09"), deferred_copy_stream("c09d")], "Stdfs side: C02, plus the copy-onto-links stream here")
 _extend(c_mem, "C10", lambda tier, rng, ctx: c10_std_streams(tier, rng), "Stdfs side: the link clauses and removal of links are judged on Stdfs's own answers (dangling links are outside C02's domain)")
-_extend(c_mem, "C20", c20_std_streams, "Stdfs side: C02 runs every macro on both backends inside its domain; here the macros are judged on Stdfs's own answers, dangling links included")
+_extend(c_mem, "C20", lambda tier, rng, ctx: c20_std_streams(tier, rng, ctx) + [rawlink_stream("c20r")], "Stdfs side: C02 runs every macro on both backends inside its domain; here the macros are judged on Stdfs's own answers, dangling links included")
 _extend(c_mem, "C06", lambda tier, rng, ctx: [hmix_stream("c06h", tier)], "Stdfs side: content laws on both backends, and handles interleaved with other writers judged by the byte-vector model")
 _extend(c_mem, "C07", lambda tier, rng, ctx: [hmix_stream("c07h", tier)], "Stdfs handles interleaved with other writers are judged by the byte-vector model (c_std.py)")
 _extend(c_mem, "C08", lambda tier, rng, ctx: [order_stream("c08o")], "Stdfs side: C02, plus the order stream here")
